@@ -1,7 +1,563 @@
 //! SM9 drivers (C09, C10, C12, C13, C16, C17) and the SM9 part of C14.
-use crate::gen::Rng;
-use crate::trace::Tracer;
+use crate::gen::{raw_json, Gen, Rng};
+use crate::suites::sm2::{arr, be_add_small, hexb, read_plan};
+use crate::trace::{bytes, guard_plain, guard_timed, Outcome, Tracer};
+use gm_sm9::fields::{mod_n_add, mod_n_from_hash, mod_n_inv, mod_n_mul, mod_n_sub};
+use gm_sm9::key::{exch_step_1a, exch_step_1b, exch_step_2a, Sm9EncKey, Sm9EncMasterKey, Sm9SignMasterKey};
+use gm_sm9::points::{Point, TwistPoint};
+use gm_sm9::u256::{sm9_u256_get_booth, u256_from_be_bytes, u256_to_be_bytes, U256};
+use gm_sm9::verif;
+use serde_json::{json, Value};
 
-pub fn rng_ops_sm9(_t: &mut Tracer, _sess: &str, _proc_id: u32, _count: usize, _inject: bool, _rng: &mut Rng, _real: &mut u64) {
-    // filled in once the gm-sm9 hooks exist
+pub const N9_HEX: &str = "b640000002a3a6f1d603ab4ff58ec74449f2934b18ea8beee56ee19cd69ecf25";
+pub const P9_HEX: &str = "b640000002a3a6f1d603ab4ff58ec74521f2934b1a7aeedbe56f9b27e351457d";
+
+fn b32(v: &[u8]) -> [u8; 32] { let mut a = [0u8; 32]; a.copy_from_slice(v); a }
+fn u(b: &[u8]) -> U256 { u256_from_be_bytes(b) }
+fn ub(a: &U256) -> Vec<u8> { u256_to_be_bytes(a) }
+pub fn g1_json(p: &Point) -> Value { json!({"x": bytes(&ub(&p.x)), "y": bytes(&ub(&p.y)), "z": bytes(&ub(&p.z))}) }
+pub fn g2_json(q: &TwistPoint) -> Value { json!({"x": bytes(&verif::fp2_bytes(&q.x)), "y": bytes(&verif::fp2_bytes(&q.y)), "z": bytes(&verif::fp2_bytes(&q.z))}) }
+fn msg_fields(f: &mut Value, g: Option<&Gen>, m: &[u8]) {
+    f["len"] = json!(m.len());
+    match g { Some(g) => { f["gen"] = g.json(); } None => { f["gen"] = raw_json(); f["raw"] = bytes(m); } }
+}
+fn scalar(rng: &mut Rng) -> Vec<u8> { let mut k = rng.bytes(32); k[0] &= 0x7f; k[0] |= 0x01; k }      // < 2^255 < N, non-zero
+
+/// run `f` under the gm-sm9 RNG hook; returns (outcome, accepted scalars, full log)
+fn hooked<T: Send + 'static>(script: Vec<[u8; 32]>, f: impl FnOnce() -> Result<T, String> + Send + 'static) -> (Outcome<T>, Vec<Vec<u8>>, Vec<verif::RngEvent>) {
+    let out = guard_timed(60, move || {
+        verif::rng_script(script);
+        let _ = verif::rng_take_log();
+        let r = f();
+        let log = verif::rng_take_log();
+        verif::rng_script(vec![]);
+        Ok::<_, String>((r, log))
+    });
+    match out {
+        Outcome::Ok((Ok(v), log)) => { let ks = log.iter().filter(|e| e.accepted).map(|e| e.candidate.to_vec()).collect(); (Outcome::Ok(v), ks, log) }
+        Outcome::Ok((Err(e), log)) => (Outcome::Err(e), vec![], log),
+        Outcome::Err(e) => (Outcome::Err(e), vec![], vec![]), Outcome::Panic(e) => (Outcome::Panic(e), vec![], vec![]), Outcome::Timeout => (Outcome::Timeout, vec![], vec![]),
+    }
+}
+
+// ------------------------------------------------------------------------------------------------ C16
+pub fn drive_hash(t: &mut Tracer, tier: &str, seed: u64, plan: Option<String>) {
+    let thorough = tier == "thorough";
+    let mut rng = Rng(seed ^ 0x9016);
+    let mut n = 0u64;
+    let mut sess = || { n += 1; format!("sm9h/{}", n) };
+    let from_hash = |t: &mut Tracer, s: String, ha: &[u8], cls: &str| {
+        let h = ha.to_vec();
+        let o = guard_plain(move || mod_n_from_hash(&h));
+        let ob = o.ok().map(|x| ub(x)).unwrap_or(vec![0u8; 32]);
+        t.emit(&s, "sm9.from_hash", json!({"prop": "C16", "ha": bytes(ha), "cls": cls, "out": bytes(&ob), "outcome": o.name(), "detail": o.detail()}));
+    };
+    // boundary Ha values from the TLC plan, crafted master keys
+    let planv = read_plan(&plan);
+    for v in &planv {
+        if v["kind"] == "ha" && v["fits"] == 1 { from_hash(t, sess(), &arr(&v["ha"]), "planned"); }
+    }
+    // structured and random Ha
+    for ha in [vec![0u8; 40], vec![0xffu8; 40], { let mut x = vec![0u8; 40]; x[39] = 1; x }, { let mut x = vec![0u8; 40]; x[0] = 0x80; x }, { let mut x = vec![0xffu8; 40]; x[7] = 0xfe; x }] {
+        from_hash(t, sess(), &ha, "structured");
+    }
+    for _ in 0..(if thorough { 3000 } else { 300 }) { from_hash(t, sess(), &rng.bytes(40), "random"); }
+    // H1 / H2 wrappers on identities of 0..300 bytes
+    let lens: Vec<usize> = if thorough { (0..=300).collect() } else { vec![0, 1, 5, 31, 32, 55, 56, 64, 100, 300] };
+    for (i, len) in lens.iter().enumerate() {
+        let id = rng.bytes(*len);
+        let hid = [1u8, 2, 3][i % 3];
+        let (id2, id3) = (id.clone(), id.clone());
+        let o = guard_plain(move || gm_sm9::key::verif_hash1(&id2, hid));
+        t.emit(&sess(), "sm9.hash1", json!({"prop": "C16", "idb": bytes(&id3), "hid": hid, "out": bytes(&o.ok().map(|x| ub(x)).unwrap_or(vec![0u8; 32])), "outcome": o.name(), "detail": o.detail()}));
+        if i % 2 == 0 {
+            let w = rng.bytes(384);
+            let (d2, w2) = (id.clone(), w.clone());
+            let o = guard_plain(move || gm_sm9::key::verif_hash2(&d2, &w2));
+            t.emit(&sess(), "sm9.hash2", json!({"prop": "C16", "data": bytes(&id), "w": bytes(&w), "out": bytes(&o.ok().map(|x| ub(x)).unwrap_or(vec![0u8; 32])), "outcome": o.name(), "detail": o.detail()}));
+        }
+    }
+    // extraction: Annex keys, random / edge master keys, crafted zero keys
+    let nhex = hexb(N9_HEX);
+    let mut masters: Vec<(Vec<u8>, Vec<u8>, &'static str)> = vec![
+        (hexb("000130e78459d78545cb54c587e02cf480ce0b66340f319f348a1d5b1f2dc5f4"), b"Alice".to_vec(), "sign"),
+        (hexb("0001edee3778f441f8dea3d9fa0acc4e07ee36c93f9a08618af4ad85cede1c22"), b"Bob".to_vec(), "enc"),
+        (hexb("0002e65b0762d042f51f0d23542b13ed8cfa2e9a0e7206361e013a283905e31f"), b"Alice".to_vec(), "exch"),
+        (hexb("0002e65b0762d042f51f0d23542b13ed8cfa2e9a0e7206361e013a283905e31f"), b"Bob".to_vec(), "exch"),
+        (be_add_small(&vec![0u8; 32], 1), b"one".to_vec(), "sign"), (be_add_small(&nhex, -1), b"n-1".to_vec(), "enc"), (be_add_small(&vec![0u8; 32], 2), b"two".to_vec(), "exch"),
+    ];
+    for i in 0..(if thorough { 40 } else { 5 }) { let len = rng.below(40) as usize; masters.push((scalar(&mut rng), rng.bytes(len), ["sign", "enc", "exch"][i % 3])); }
+    for v in &planv {
+        if v["kind"] == "zerokey" { masters.push((arr(&v["k"]), arr(&v["idb"]), match v["hid"].as_u64().unwrap() { 1 => "sign", 3 => "enc", _ => "exch" })); }
+    }
+    for (k, id, kind) in masters {
+        let (k2, id2) = (k.clone(), id.clone());
+        let o: Outcome<Option<Value>> = guard_timed(60, move || -> Result<Option<Value>, String> {
+            let ku = u(&k2);
+            Ok(match kind {
+                "sign" => Sm9SignMasterKey { ks: ku, ppubs: TwistPoint::g_mul(&ku) }.extract_key(&id2).map(|x| g1_json(&x.ds)),
+                "enc" => Sm9EncMasterKey { ke: ku, ppube: Point::g_mul(&ku) }.extract_key(&id2).map(|x| g2_json(&x.de)),
+                _ => Sm9EncMasterKey { ke: ku, ppube: Point::g_mul(&ku) }.extract_exch_key(&id2).map(|x| g2_json(&x.de)),
+            })
+        });
+        let (some, pt) = match o.ok() { Some(Some(v)) => (1, v.clone()), _ => (0, json!({"x": [], "y": [], "z": []})) };
+        t.emit(&sess(), "sm9.extract", json!({"prop": "C16", "kind": kind, "k": bytes(&k), "idb": bytes(&id), "some": some, "pt": pt, "outcome": o.name(), "detail": o.detail()}));
+    }
+}
+
+// ------------------------------------------------------------------------------------------------ C09
+struct SignCtx { ks: Vec<u8>, msk: Sm9SignMasterKey }
+fn sign_ctx(ks: &[u8]) -> SignCtx { let k = u(ks); SignCtx { ks: ks.to_vec(), msk: Sm9SignMasterKey { ks: k, ppubs: TwistPoint::g_mul(&k) } } }
+
+fn sign_event(t: &mut Tracer, sess: &str, c: &SignCtx, id: &[u8], g: Option<&Gen>, msg: &[u8], script: Vec<[u8; 32]>) -> Option<(U256, Point, Vec<u8>)> {
+    let key = match c.msk.extract_key(id) { Some(k) => k, None => return None };
+    let fixed = !script.is_empty();
+    let m = msg.to_vec();
+    let (o, rs, _) = hooked(script, move || key.sign(&m).map_err(|e| format!("{:?}", e)));
+    let (h, s) = match o.ok() { Some((h, s)) => (*h, *s), None => ([0u64; 4], Point::zero()) };
+    let mut f = json!({"prop": "C09", "ks": bytes(&c.ks), "idb": bytes(id), "mode": if fixed { "fixed" } else { "free" }, "rs": rs.iter().map(|r| bytes(r)).collect::<Vec<_>>(),
+        "h": bytes(&ub(&h)), "s": g1_json(&s), "outcome": o.name(), "detail": o.detail()});
+    msg_fields(&mut f, g, msg);
+    t.emit(sess, "sm9.sign", f);
+    if o.ok().is_some() && !rs.is_empty() { Some((h, s, rs.last().unwrap().clone())) } else { None }
+}
+
+#[allow(clippy::too_many_arguments)]
+fn verify_event(t: &mut Tracer, sess: &str, c: &SignCtx, ppubs: &TwistPoint, keyfault: bool, id: &[u8], g: Option<&Gen>, msg: &[u8], h: &[u8], s: &Point, r: Option<&[u8]>, fault: &str) {
+    let msk = Sm9SignMasterKey { ks: c.msk.ks, ppubs: *ppubs };
+    let (id2, m2, hu, s2) = (id.to_vec(), msg.to_vec(), u(h), *s);
+    let o = guard_timed(60, move || msk.verify_sign(&id2, &m2, &hu, &s2).map_err(|e| format!("{:?}", e)));
+    let mut f = json!({"prop": "C09", "ks": bytes(&c.ks), "ppubs": g2_json(ppubs), "keyfault": if keyfault { 1 } else { 0 }, "idb": bytes(id), "h": bytes(h), "s": g1_json(s),
+        "honest": if r.is_some() { 1 } else { 0 }, "r": bytes(r.unwrap_or(&[])), "fault": fault, "outcome": o.name(), "detail": o.detail()});
+    msg_fields(&mut f, g, msg);
+    t.emit(sess, "sm9.verify", f);
+}
+
+pub fn drive_sign(t: &mut Tracer, tier: &str, seed: u64, plan: Option<String>) {
+    let thorough = tier == "thorough";
+    let mut rng = Rng(seed ^ 0x9009);
+    let mut n = 0u64;
+    let mut sess = || { n += 1; format!("sm9sig/{}", n) };
+    let nhex = hexb(N9_HEX);
+    // Annex A example with scripted r
+    let annex = sign_ctx(&hexb("000130e78459d78545cb54c587e02cf480ce0b66340f319f348a1d5b1f2dc5f4"));
+    let r_annex = b32(&hexb("00033c8616b06704813203dfd00965022ed15975c662337aed648835dc4b1cbe"));
+    if let Some((h, s, r)) = sign_event(t, &sess(), &annex, b"Alice", None, b"Chinese IBS standard", vec![r_annex]) {
+        verify_event(t, &sess(), &annex, &annex.msk.ppubs, false, b"Alice", None, b"Chinese IBS standard", &ub(&h), &s, Some(&r), "none");
+    }
+    // master keys x identities x message lengths; free r and fixed boundary r
+    let nkeys = if thorough { 10 } else { 2 };
+    let g = Gen::new("mix", rng.below(1 << 20));
+    let lens: Vec<usize> = if thorough { vec![0, 1, 31, 32, 64, 100, 500, 1024] } else { vec![0, 20, 300] };
+    let mut valid: Vec<(SignCtx, Vec<u8>, Vec<u8>, U256, Point, Vec<u8>)> = vec![];
+    for ki in 0..nkeys {
+        let c = sign_ctx(&scalar(&mut rng));
+        for (j, len) in lens.iter().enumerate() {
+            let id = { let l = 1 + rng.below(20) as usize; rng.bytes(l) };
+            let m = g.msg(*len);
+            let script = match (ki + j) % 3 { 0 => vec![], 1 => vec![b32(&be_add_small(&vec![0u8; 32], 1 + (j as i64)))], _ => vec![b32(&be_add_small(&nhex, -1 - (j as i64)))] };
+            if let Some((h, s, r)) = sign_event(t, &sess(), &c, &id, Some(&g), &m, script) {
+                verify_event(t, &sess(), &c, &c.msk.ppubs, false, &id, Some(&g), &m, &ub(&h), &s, Some(&r), "none");
+                if valid.len() < (if thorough { 6 } else { 1 }) { valid.push((sign_ctx(&c.ks), id.clone(), m.clone(), h, s, r)); }
+            }
+        }
+    }
+    // spec-made signatures from the TLC plan: the library must accept them
+    for v in read_plan(&plan) {
+        if v["kind"] == "specsig" && v["ok"] == "ok" {
+            let c = sign_ctx(&arr(&v["ks"]));
+            let s = verif::point_from_bytes(&arr(&v["s"]));
+            verify_event(t, &sess(), &c, &c.msk.ppubs, false, &arr(&v["idb"]), None, &arr(&v["msg"]), &arr(&v["h"]), &s, Some(&arr(&v["r"])), "spec-made");
+        }
+    }
+    // faults on valid signatures
+    for (c, id, m, h, s, _r) in &valid {
+        let hb = ub(h);
+        let ve = |t: &mut Tracer, se: String, hh: &[u8], ss: &Point, fault: &str| verify_event(t, &se, c, &c.msk.ppubs, false, id, None, m, hh, ss, None, fault);
+        // bit flips in h
+        for bit in 0..256 { if thorough || bit % 16 == 3 { let mut h2 = hb.clone(); h2[bit / 8] ^= 0x80 >> (bit % 8); ve(t, sess(), &h2, s, "h-bitflip"); } }
+        // h out of range / boundary
+        for hv in [vec![0u8; 32], be_add_small(&nhex, -1), nhex.clone(), be_add_small(&nhex, 1), vec![0xffu8; 32], be_add_small(&vec![0u8; 32], 1)] { ve(t, sess(), &hv, s, "h-range"); }
+        // S: bit flips (off curve), other curve points, infinity, re-randomised representation of the SAME point (must still verify -> honest path needs r; skipped)
+        for bit in 0..(if thorough { 256 } else { 24 }) { let mut s2 = *s; s2.x[bit / 64] ^= 1u64 << (bit % 64); ve(t, sess(), &hb, &s2, "S-bitflip"); }
+        for _ in 0..(if thorough { 8 } else { 2 }) { let s2 = Point::g_mul(&u(&scalar(&mut rng))); ve(t, sess(), &hb, &s2, "S-other-point"); }
+        ve(t, sess(), &hb, &Point::zero(), "S-infinity");
+        ve(t, sess(), &hb, &s.point_neg(), "S-negated");
+        // altered message / identity / master public key
+        let mut m2 = m.clone(); if m2.is_empty() { m2.push(7) } else { m2[0] ^= 1 };
+        verify_event(t, &sess(), c, &c.msk.ppubs, false, id, None, &m2, &hb, s, None, "altered-msg");
+        let mut id2 = id.clone(); id2.push(b'x');
+        verify_event(t, &sess(), c, &c.msk.ppubs, false, &id2, None, m, &hb, s, None, "altered-id");
+        let other = TwistPoint::g_mul(&u(&scalar(&mut rng)));
+        verify_event(t, &sess(), c, &other, true, id, None, m, &hb, s, None, "altered-master-key");
+    }
+}
+
+// ------------------------------------------------------------------------------------------------ C10
+struct EncCtx { ke: Vec<u8>, msk: Sm9EncMasterKey }
+fn enc_ctx(ke: &[u8]) -> EncCtx { let k = u(ke); EncCtx { ke: ke.to_vec(), msk: Sm9EncMasterKey { ke: k, ppube: Point::g_mul(&k) } } }
+
+fn encrypt_event(t: &mut Tracer, sess: &str, c: &EncCtx, id: &[u8], g: Option<&Gen>, msg: &[u8], script: Vec<[u8; 32]>) -> Option<(Vec<u8>, Vec<u8>)> {
+    let (msk, id2, m) = (c.msk, id.to_vec(), msg.to_vec());
+    let (o, rs, _) = hooked(script, move || Ok(msk.encrypt(&id2, &m)));
+    let ct = o.ok().cloned().unwrap_or_default();
+    let mut f = json!({"prop": "C10", "ke": bytes(&c.ke), "idb": bytes(id), "rs": rs.iter().map(|r| bytes(r)).collect::<Vec<_>>(), "ct": bytes(&ct), "outcome": o.name(), "detail": o.detail()});
+    msg_fields(&mut f, g, msg);
+    t.emit(sess, "sm9.encrypt", f);
+    if o.ok().is_some() && !rs.is_empty() { Some((ct, rs.last().unwrap().clone())) } else { None }
+}
+fn decrypt_event(t: &mut Tracer, sess: &str, c: &EncCtx, keyid: &[u8], id: &[u8], ct: &[u8], r: Option<&[u8]>, fault: &str) {
+    let (msk, kid, id2, c2) = (c.msk, keyid.to_vec(), id.to_vec(), ct.to_vec());
+    let o: Outcome<Vec<u8>> = guard_timed(60, move || -> Result<Vec<u8>, String> {
+        let key: Sm9EncKey = msk.extract_key(&kid).ok_or("no key".to_string())?;
+        key.decrypt(&id2, &c2).map_err(|e| format!("{:?}", e))
+    });
+    let out = o.ok().cloned().unwrap_or_default();
+    t.emit(sess, "sm9.decrypt", json!({"prop": "C10", "ke": bytes(&c.ke), "keyid": bytes(keyid), "idb": bytes(id), "ct": bytes(ct), "honest": if r.is_some() { 1 } else { 0 },
+        "r": bytes(r.unwrap_or(&[])), "fault": fault, "out": bytes(&out), "outcome": o.name(), "detail": o.detail()}));
+}
+
+pub fn drive_encrypt(t: &mut Tracer, tier: &str, seed: u64, plan: Option<String>) {
+    let thorough = tier == "thorough";
+    let mut rng = Rng(seed ^ 0x9010);
+    let mut n = 0u64;
+    let mut sess = || { n += 1; format!("sm9enc/{}", n) };
+    // Annex example with scripted r
+    let annex = enc_ctx(&hexb("0001edee3778f441f8dea3d9fa0acc4e07ee36c93f9a08618af4ad85cede1c22"));
+    let r_annex = b32(&hexb("0000aac0541779c8fc45e3e2cb25c12b5d2576b2129ae8bb5ee2cbe5ec9e785c"));
+    if let Some((ct, r)) = encrypt_event(t, &sess(), &annex, b"Bob", None, b"Chinese IBE standard", vec![r_annex]) {
+        decrypt_event(t, &sess(), &annex, b"Bob", b"Bob", &ct, Some(&r), "none");
+    }
+    // every message length 1..=255 (quick: boundary subset)
+    let lens: Vec<usize> = if thorough { (1..=255).collect() } else { vec![1, 2, 31, 32, 33, 64, 100, 223, 224, 254, 255] };
+    let g = Gen::new("mix", rng.below(1 << 20));
+    let mut samples: Vec<(EncCtx, Vec<u8>, Vec<u8>)> = vec![];
+    let c = enc_ctx(&scalar(&mut rng));
+    for (i, len) in lens.iter().enumerate() {
+        let c2 = if i % 7 == 3 { enc_ctx(&scalar(&mut rng)) } else { enc_ctx(&c.ke) };
+        let id = { let l = 1 + rng.below(24) as usize; rng.bytes(l) };
+        let m = g.msg(*len);
+        if let Some((ct, r)) = encrypt_event(t, &sess(), &c2, &id, Some(&g), &m, vec![]) {
+            decrypt_event(t, &sess(), &c2, &id, &id, &ct, Some(&r), "none");
+            if *len <= 40 && samples.len() < (if thorough { 6 } else { 1 }) { samples.push((enc_ctx(&c2.ke), id.clone(), ct.clone())); }
+        }
+    }
+    // spec-made ciphertexts from the TLC plan
+    for v in read_plan(&plan) {
+        if v["kind"] == "specct" && v["ok"] == "ok" {
+            let c = enc_ctx(&arr(&v["ke"]));
+            decrypt_event(t, &sess(), &c, &arr(&v["idb"]), &arr(&v["idb"]), &arr(&v["ct"]), Some(&arr(&v["r"])), "spec-made");
+        }
+    }
+    // faults: every single-bit flip, truncations, C1 off the curve, other identity
+    for (c, id, ct) in &samples {
+        for bit in 0..(ct.len() * 8) {
+            if !thorough && bit % 5 != 0 && bit >= 8 { continue; }
+            let mut c2 = ct.clone(); c2[bit / 8] ^= 0x80 >> (bit % 8);
+            let region = if bit < 8 { "flip-prefix" } else if bit / 8 < 65 { "flip-c1" } else if bit / 8 < 97 { "flip-c3" } else { "flip-c2" };
+            decrypt_event(t, &sess(), c, id, id, &c2, None, region);
+        }
+        for len in 0..ct.len() { if thorough || len % 9 == 0 || len >= 95 { decrypt_event(t, &sess(), c, id, id, &ct[..len], None, "truncated"); } }
+        let mut off = ct.clone(); for b in off[1..65].iter_mut() { *b = rng.next() as u8; } off[1] &= 0x3f;
+        decrypt_event(t, &sess(), c, id, id, &off, None, "c1-offcurve");
+        let mut big = ct.clone(); for b in big[1..33].iter_mut() { *b = 0xff; }
+        decrypt_event(t, &sess(), c, id, id, &big, None, "c1-x>=p");
+        let mut id2 = id.clone(); id2.push(1);
+        decrypt_event(t, &sess(), c, id, &id2, ct, None, "other-identity");
+        decrypt_event(t, &sess(), c, &id2, id, ct, None, "other-key");
+    }
+}
+
+// ------------------------------------------------------------------------------------------------ C17
+fn tamper_g1(p: &Point, kind: &str, rng: &mut Rng) -> Point {
+    match kind {
+        "other" => Point::g_mul(&u(&scalar(rng))),
+        "offcurve" => { let mut q = *p; q.y[0] ^= 1; q }
+        "infinity" => Point::zero(),
+        "bitflip" => { let mut q = *p; q.x[1] ^= 1 << 9; q }
+        _ => *p,
+    }
+}
+pub fn drive_kex(t: &mut Tracer, tier: &str, seed: u64) {
+    let thorough = tier == "thorough";
+    let mut rng = Rng(seed ^ 0x9017);
+    let mut n = 0u64;
+    let mut sess = || { n += 1; format!("sm9kx/{}", n) };
+    let run = |t: &mut Tracer, s: String, ke: &[u8], ida: &[u8], idb: &[u8], klen: usize, ra_script: Vec<[u8; 32]>, rb_script: Vec<[u8; 32]>, tam_a: &str, tam_b: &str, rng: &mut Rng| {
+        let c = enc_ctx(ke);
+        let (key_a, key_b) = match (c.msk.extract_exch_key(ida), c.msk.extract_exch_key(idb)) { (Some(a), Some(b)) => (a, b), _ => return };
+        let common = json!({"prop": "C17", "ke": bytes(ke), "ida": bytes(ida), "idb": bytes(idb), "klen": klen});
+        let with = |extra: Value| { let mut m = common.clone(); for (k, v) in extra.as_object().unwrap() { m[k] = v.clone(); } m };
+        let (msk, idb2) = (c.msk, idb.to_vec());
+        let (o1, rs1, _) = hooked(ra_script, move || Ok(exch_step_1a(&msk, &idb2)));
+        let (ra, ra_) = match o1.ok() { Some((p, r)) => (*p, *r), None => { t.emit(&s, "sm9kx.1a", with(json!({"r": [], "ra": g1_json(&Point::zero()), "outcome": o1.name(), "detail": o1.detail()}))); return; } };
+        let r_a = rs1.last().cloned().unwrap_or_default();
+        t.emit(&s, "sm9kx.1a", with(json!({"r": bytes(&r_a), "ra": g1_json(&ra), "outcome": "ok", "detail": ""})));
+        let ra_recv = tamper_g1(&ra, tam_a, rng);
+        let (msk, ida2, idb2) = (c.msk, ida.to_vec(), idb.to_vec());
+        let (o2, rs2, _) = hooked(rb_script, move || exch_step_1b(&msk, &ida2, &idb2, &key_b, &ra_recv, klen).map_err(|e| format!("{:?}", e)));
+        let r_b = rs2.last().cloned().unwrap_or_default();
+        let (rb, skb) = match o2.ok() { Some((p, k)) => (*p, k.clone()), None => (Point::zero(), vec![]) };
+        t.emit(&s, "sm9kx.1b", with(json!({"r": bytes(&r_b), "peer_r": if tam_a == "none" { bytes(&r_a) } else { json!([]) }, "ra_in": g1_json(&ra_recv), "rb": g1_json(&rb), "sk": bytes(&skb),
+            "tamper": tam_a, "outcome": o2.name(), "detail": o2.detail()})));
+        if o2.ok().is_none() { return; }
+        let rb_recv = tamper_g1(&rb, tam_b, rng);
+        let (msk, ida2, idb2) = (c.msk, ida.to_vec(), idb.to_vec());
+        let (o3, _, _) = hooked(vec![], move || exch_step_2a(&msk, &ida2, &idb2, &key_a, ra_, &ra, &rb_recv, klen).map_err(|e| format!("{:?}", e)));
+        let ska = o3.ok().cloned().unwrap_or_default();
+        t.emit(&s, "sm9kx.2a", with(json!({"r": bytes(&r_a), "peer_r": if tam_b == "none" { bytes(&r_b) } else { json!([]) }, "ra": g1_json(&ra), "rb_in": g1_json(&rb_recv), "sk": bytes(&ska),
+            "tamper": tam_b, "outcome": o3.name(), "detail": o3.detail()})));
+    };
+    // Annex example
+    run(t, sess(), &hexb("0002e65b0762d042f51f0d23542b13ed8cfa2e9a0e7206361e013a283905e31f"), b"Alice", b"Bob", 16,
+        vec![b32(&hexb("00005879dd1d51e175946f23b1b41e93ba31c584ae59a426ec1046a4d03b06c8"))], vec![b32(&hexb("00018b98c44bef9f8537fb7d071b2c928b3bc65bd3d69e1eee213564905634fe"))], "none", "none", &mut rng);
+    // honest runs, klen 1..=128
+    let klens: Vec<usize> = if thorough { (1..=128).collect() } else { vec![1, 16, 32, 33, 100, 128] };
+    for (i, klen) in klens.iter().enumerate() {
+        let ke = scalar(&mut rng);
+        let (ida, idb) = ({ let l = 1 + rng.below(16) as usize; rng.bytes(l) }, { let l = 1 + rng.below(16) as usize; rng.bytes(l) });
+        if !thorough || i % 2 == 0 { run(t, sess(), &ke, &ida, &idb, *klen, vec![], vec![], "none", "none", &mut rng); }
+    }
+    // tampered R values
+    for kind in ["offcurve", "infinity", "bitflip", "other"] {
+        let ke = scalar(&mut rng);
+        if kind != "other" || thorough {
+            run(t, sess(), &ke, b"alice@x", b"bob@y", 20, vec![], vec![], kind, "none", &mut rng);
+            run(t, sess(), &ke, b"alice@x", b"bob@y", 20, vec![], vec![], "none", kind, &mut rng);
+        } else {
+            run(t, sess(), &ke, b"alice@x", b"bob@y", 20, vec![], vec![], kind, "none", &mut rng);
+        }
+    }
+}
+
+// ------------------------------------------------------------------------------------------------ C12
+pub fn drive_pairing(t: &mut Tracer, tier: &str, seed: u64) {
+    let thorough = tier == "thorough";
+    let mut rng = Rng(seed ^ 0x9012);
+    let mut n = 0u64;
+    let mut sess = || { n += 1; format!("sm9pair/{}", n) };
+    let nhex = hexb(N9_HEX);
+    let small = |v: i64| be_add_small(&vec![0u8; 32], v);
+    // exact 384-byte comparisons: generator multiples with small / near-order / random scalars; Jacobian inputs with Z != 1
+    let mut cases: Vec<(Vec<u8>, Vec<u8>, &'static str)> = vec![(small(1), small(1), "generators"), (small(2), small(3), "small"), (be_add_small(&nhex, -1), small(1), "near-order"),
+        (small(1), be_add_small(&nhex, -2), "near-order"), (hexb("000130e78459d78545cb54c587e02cf480ce0b66340f319f348a1d5b1f2dc5f4"), small(1), "annex-g")];
+    for _ in 0..(if thorough { 40 } else { 3 }) { cases.push((scalar(&mut rng), scalar(&mut rng), "random")); }
+    for (a, b, cls) in &cases {
+        // e([b]P1, [a]P2): [a]P2 via g_mul (Jacobian in general), [b]P1 via g_mul (Jacobian, Z != 1 unless b = 1)
+        let q = TwistPoint::g_mul(&u(a));
+        let p = Point::g_mul(&u(b));
+        let o = guard_plain(|| verif::pairing(&q, &p));
+        let out = o.ok().cloned().unwrap_or_default();
+        t.emit(&sess(), "sm9.pairing", json!({"prop": "C12", "p": g1_json(&p), "q": g2_json(&q), "cls": cls, "out": bytes(&out), "outcome": o.name(), "detail": o.detail()}));
+    }
+    // bilinearity / order identities evaluated by the library, judged by the specification with G0^(ab)
+    let nid = if thorough { 400 } else { 24 };
+    for i in 0..nid {
+        let (a, b, cls) = match i % 6 { 0 => (small(1 + i as i64), small(1), "small"), 1 => (be_add_small(&nhex, -1 - (i as i64)), small(2), "near-order"), 2 => (small(1), be_add_small(&nhex, -1), "near-order"),
+            _ => (scalar(&mut rng), scalar(&mut rng), "random") };
+        let q = if i % 4 == 0 { TwistPoint::g_mul(&u(&a)) } else { TwistPoint::g_mul(&[1, 0, 0, 0]).point_mul(&u(&a)) };
+        let p = if i % 3 == 0 { Point::g_mul(&u(&b)) } else { Point::g_mul(&[1, 0, 0, 0]).point_mul(&u(&b)) };
+        let o = guard_plain(|| verif::pairing(&q, &p));
+        let out = o.ok().cloned().unwrap_or_default();
+        t.emit(&sess(), "sm9.pair_ident", json!({"prop": "C12", "a": bytes(&a), "b": bytes(&b), "cls": cls, "out": bytes(&out), "outcome": o.name(), "detail": o.detail()}));
+    }
+    // GT exponentiation (order N: g^(N-2) etc. stay within the library's pow precondition e < N-1)
+    let g0 = guard_plain(|| verif::pairing(&TwistPoint::g_mul(&[1, 0, 0, 0]), &Point::g_mul(&[1, 0, 0, 0]))).ok().cloned().unwrap_or_default();
+    if g0.len() == 384 {
+        for (e, cls) in [(small(0), "e=0"), (small(1), "e=1"), (small(2), "small"), (be_add_small(&nhex, -2), "e=N-2"), (scalar(&mut rng), "random"), (scalar(&mut rng), "random")] {
+            let (g2, e2) = (g0.clone(), u(&e));
+            let o = guard_plain(move || verif::fp12_pow(&g2, &e2));
+            let out = o.ok().cloned().unwrap_or_default();
+            t.emit(&sess(), "gt.pow", json!({"prop": "C12", "base": bytes(&g0), "e": bytes(&e), "cls": cls, "out": bytes(&out), "outcome": o.name(), "detail": o.detail()}));
+        }
+    }
+}
+
+// ------------------------------------------------------------------------------------------------ C13
+fn field_values(rng: &mut Rng, modulus_hex: &str, nrand: usize) -> Vec<(Vec<u8>, &'static str)> {
+    let m = hexb(modulus_hex);
+    let mut v: Vec<(Vec<u8>, &'static str)> = vec![(vec![0u8; 32], "zero"), (be_add_small(&vec![0u8; 32], 1), "one"), (be_add_small(&vec![0u8; 32], 2), "small"),
+        (be_add_small(&m, -1), "near-modulus"), (be_add_small(&m, -2), "near-modulus")];
+    let limbs: [u64; 4] = [1, 1 << 32, 1 << 63, u64::MAX];
+    for a in 0..4 { let x: U256 = [limbs[a], limbs[(a + 1) % 4], limbs[(a + 2) % 4], limbs[(a + 3) % 4] >> 2]; v.push((ub(&x), "boundary-limbs")); }
+    for _ in 0..nrand { v.push((scalar(rng), "random")); }
+    v.into_iter().filter(|(x, _)| x.as_slice() < m.as_slice()).collect()
+}
+/// tower element of `lvl` components: each subset of components zero, others from the value pool
+fn tower_elems(rng: &mut Rng, lvl: usize, pool: &[(Vec<u8>, &'static str)], count: usize) -> Vec<(Vec<u8>, String)> {
+    let mut out = vec![];
+    let masks: Vec<u32> = if lvl <= 4 { (0..(1u32 << lvl)).collect() } else { let mut m: Vec<u32> = vec![0, 0xfff, 1, 0x800, 0x00f, 0xf00, 0x0f0, 0x555, 0xaaa]; for _ in 0..count { m.push(rng.next() as u32 & 0xfff); } m };
+    for mask in masks {
+        let mut b = vec![];
+        let mut cls = String::from("z");
+        for i in 0..lvl {
+            if mask >> i & 1 == 1 { let (v, _) = &pool[rng.below(pool.len() as u64) as usize]; b.extend_from_slice(v); cls.push('x'); } else { b.extend_from_slice(&[0u8; 32]); cls.push('0'); }
+        }
+        out.push((b, if lvl <= 4 { cls } else { format!("m{:03x}", mask) }));
+    }
+    out
+}
+
+pub fn drive_arith(t: &mut Tracer, tier: &str, seed: u64) {
+    let thorough = tier == "thorough";
+    let mut rng = Rng(seed ^ 0x9013);
+    let mut n = 0u64;
+    let mut sess = || { n += 1; format!("sm9ar/{}", n) };
+    let pool = field_values(&mut rng, P9_HEX, if thorough { 12 } else { 4 });
+    let tower = |t: &mut Tracer, s: String, lvl: usize, f: &'static str, a: &[u8], b: &[u8], cls: &str| {
+        let (a2, b2) = (a.to_vec(), b.to_vec());
+        let o = guard_plain(move || match lvl { 1 => verif::fp_op(f, &a2, &b2), 2 => verif::fp2_op(f, &a2, &b2), 4 => verif::fp4_op(f, &a2, &b2), _ => verif::fp12_op(f, &a2, &b2) });
+        let out = o.ok().cloned().unwrap_or_default();
+        t.emit(&s, "tower.op", json!({"prop": "C13", "lvl": lvl, "f": f, "cls": cls, "a": bytes(a), "b": bytes(b), "out": bytes(&out), "outcome": o.name(), "detail": o.detail()}));
+    };
+    // Fp
+    for (i, (a, ca)) in pool.iter().enumerate() {
+        for f in ["sqr", "neg", "dbl", "tpl", "div2", "inv"] { tower(t, sess(), 1, f, a, &[0u8; 32], ca); }
+        for (j, (b, _)) in pool.iter().enumerate() { if thorough || (i + j) % 3 == 0 { for f in ["add", "sub", "mul"] { tower(t, sess(), 1, f, a, b, ca); } } }
+    }
+    // Fp2 / Fp4: every zero pattern
+    for (lvl, unary, binary) in [(2usize, vec!["sqr", "neg", "dbl", "tpl", "div2", "inv", "conj", "a_mul_u", "sqr_u"], vec!["add", "sub", "mul", "div", "mul_u", "mul_fp"]),
+                                 (4usize, vec!["sqr", "neg", "dbl", "div2", "inv", "conj", "a_mul_v", "sqr_v"], vec!["add", "sub", "mul", "mul_v", "mul_fp2", "mul_fp"])] {
+        let reps = if thorough { 4 } else { 1 };
+        for _ in 0..reps {
+            let elems = tower_elems(&mut rng, lvl, &pool, 0);
+            for (i, (a, ca)) in elems.iter().enumerate() {
+                for f in &unary { tower(t, sess(), lvl, f, a, &vec![0u8; 32 * lvl], ca); }
+                for (j, (b, _)) in elems.iter().enumerate() { if thorough || (i * 3 + j) % 5 == 0 || lvl == 2 { for f in &binary { tower(t, sess(), lvl, f, a, b, ca); } } }
+            }
+        }
+    }
+    // Fp12: zero-pattern classes x a few values
+    let e12 = tower_elems(&mut rng, 12, &pool, if thorough { 20 } else { 3 });
+    for (i, (a, ca)) in e12.iter().enumerate() {
+        for f in ["sqr", "neg", "dbl", "inv"] { tower(t, sess(), 12, f, a, &vec![0u8; 384], ca); }
+        if i % 3 == 0 { tower(t, sess(), 12, "frob2", a, &vec![0u8; 384], ca); }
+        if thorough && i % 5 == 0 { tower(t, sess(), 12, "frob6", a, &vec![0u8; 384], ca); }
+        let (b, _) = &e12[(i * 5 + 1) % e12.len()];
+        for f in ["add", "sub", "mul"] { tower(t, sess(), 12, f, a, b, ca); }
+    }
+    // arithmetic modulo the group order N
+    let npool = field_values(&mut rng, N9_HEX, if thorough { 12 } else { 4 });
+    for (i, (a, ca)) in npool.iter().enumerate() {
+        for (j, (b, _)) in npool.iter().enumerate() {
+            if !thorough && (i + j) % 2 == 1 { continue; }
+            for f in ["add", "sub", "mul"] {
+                let (au, bu) = (u(a), u(b));
+                let o = guard_plain(move || match f { "add" => mod_n_add(&au, &bu), "sub" => mod_n_sub(&au, &bu), _ => mod_n_mul(&au, &bu) });
+                t.emit(&sess(), "modn.op", json!({"prop": "C13", "f": f, "cls": ca, "a": bytes(a), "b": bytes(b), "out": bytes(&o.ok().map(|x| ub(x)).unwrap_or(vec![0u8; 32])), "outcome": o.name(), "detail": o.detail()}));
+            }
+        }
+        let au = u(a);
+        let o = guard_plain(move || mod_n_inv(&au));
+        t.emit(&sess(), "modn.op", json!({"prop": "C13", "f": "inv", "cls": ca, "a": bytes(a), "b": bytes(&[0u8; 32]), "out": bytes(&o.ok().map(|x| ub(x)).unwrap_or(vec![0u8; 32])), "outcome": o.name(), "detail": o.detail()}));
+    }
+    // G1 / G2 operations: equal / opposite / infinity / generic operands, affine and Jacobian (non-affine RIGHT operands included)
+    let nhex = hexb(N9_HEX);
+    let g1 = Point::g_mul(&[1, 0, 0, 0]);
+    let g2 = TwistPoint::g_mul(&[1, 0, 0, 0]);
+    let mut scalars: Vec<Vec<u8>> = vec![be_add_small(&vec![0u8; 32], 0), be_add_small(&vec![0u8; 32], 1), be_add_small(&vec![0u8; 32], 2), be_add_small(&nhex, -1), nhex.clone(), be_add_small(&nhex, 1), vec![0xffu8; 32]];
+    for _ in 0..(if thorough { 10 } else { 2 }) { scalars.push(rng.bytes(32)); }
+    let g1op = |t: &mut Tracer, s: String, f: &'static str, p: &Point, q: &Point, k: &[u8], cls: &str| {
+        let (p2, q2, ku) = (*p, *q, u(k));
+        if f == "equals" {
+            let o = guard_plain(move || p2.point_equals(&q2));
+            t.emit(&s, "g1.op", json!({"prop": "C13", "f": f, "cls": cls, "p": g1_json(p), "q": g1_json(q), "k": bytes(k), "eq": if o.ok() == Some(&true) { 1 } else { 0 }, "out": g1_json(&Point::zero()), "outcome": o.name(), "detail": o.detail()}));
+            return;
+        }
+        let o = guard_plain(move || match f { "add" => p2.point_add(&q2), "sub" => p2.point_sub(&q2), "dbl" => p2.point_double(), "neg" => p2.point_neg(), "mul" => p2.point_mul(&ku), _ => Point::g_mul(&ku) });
+        t.emit(&s, "g1.op", json!({"prop": "C13", "f": f, "cls": cls, "p": g1_json(p), "q": g1_json(q), "k": bytes(k), "eq": 0, "out": g1_json(o.ok().unwrap_or(&Point::zero())), "outcome": o.name(), "detail": o.detail()}));
+    };
+    let g2op = |t: &mut Tracer, s: String, f: &'static str, p: &TwistPoint, q: &TwistPoint, k: &[u8], cls: &str| {
+        let (p2, q2, ku) = (*p, *q, u(k));
+        if f == "equals" {
+            let o = guard_plain(move || p2.point_equals(&q2));
+            t.emit(&s, "g2.op", json!({"prop": "C13", "f": f, "cls": cls, "p": g2_json(p), "q": g2_json(q), "k": bytes(k), "eq": if o.ok() == Some(&true) { 1 } else { 0 }, "out": g2_json(&TwistPoint::zero()), "outcome": o.name(), "detail": o.detail()}));
+            return;
+        }
+        let o = guard_plain(move || match f { "add" => p2.point_add(&q2), "add_full" => verif::twist_add_full(&p2, &q2), "sub" => p2.point_sub(&q2), "dbl" => p2.point_double(), "neg" => p2.point_neg(),
+                                              "mul" => p2.point_mul(&ku), _ => TwistPoint::g_mul(&ku) });
+        t.emit(&s, "g2.op", json!({"prop": "C13", "f": f, "cls": cls, "p": g2_json(p), "q": g2_json(q), "k": bytes(k), "eq": 0, "out": g2_json(o.ok().unwrap_or(&TwistPoint::zero())), "outcome": o.name(), "detail": o.detail()}));
+    };
+    let zero32 = vec![0u8; 32];
+    let npts = if thorough { 5 } else { 2 };
+    for i in 0..npts {
+        let k = scalar(&mut rng);
+        // Jacobian (Z != 1) and affine forms of the same points
+        let pj = Point::g_mul(&u(&k));                       // Jacobian in general
+        let pa = pj.to_affine_point();
+        let pj2 = pa.point_double().point_add(&pa).point_sub(&pa).point_sub(&pa);   // another representation of the same point
+        let qj = Point::g_mul(&u(&scalar(&mut rng)));
+        let inf = Point::zero();
+        let pairs: Vec<(Point, Point, &str)> = vec![(pa, pa, "affine-affine"), (pj, pa, "jac-affine"), (pa, pj, "affine-jac"), (pj, pj2, "jac-jac"), (pj, pj.point_neg(), "jac-jac"), (pa, pj2.point_neg(), "affine-jac"),
+            (inf, pj, "jac-jac"), (pj, inf, "jac-jac"), (inf, inf, "jac-jac"), (pj, qj, "jac-jac"), (pa, qj, "affine-jac"), (qj, pa, "jac-affine")];
+        for (a, b, cls) in &pairs {
+            for f in ["add", "sub", "equals"] { g1op(t, sess(), f, a, b, &zero32, cls); }
+        }
+        for a in [pa, pj, inf] { g1op(t, sess(), "dbl", &a, &a, &zero32, "unary"); g1op(t, sess(), "neg", &a, &a, &zero32, "unary"); }
+        for (j, s) in scalars.iter().enumerate() {
+            if thorough || (i + j) % 2 == 0 { g1op(t, sess(), "mul", if j % 2 == 0 { &pa } else { &pj }, &pa, s, "scalar"); }
+            if i == 0 { g1op(t, sess(), "gmul", &g1, &g1, s, "scalar"); }
+        }
+        // G2
+        let tj = TwistPoint::g_mul(&u(&k));
+        let tj2 = tj.point_double().point_add(&tj).point_sub(&tj).point_sub(&tj);
+        let uj = TwistPoint::g_mul(&u(&scalar(&mut rng)));
+        let tinf = TwistPoint::zero();
+        let tpairs: Vec<(TwistPoint, TwistPoint, &str)> = vec![(g2, g2, "affine-affine"), (tj, tj, "jac-jac"), (tj, tj2, "jac-jac"), (tj2, tj, "jac-jac"), (tj, tj.point_neg(), "jac-jac"), (tj, tj2.point_neg(), "jac-jac"),
+            (tinf, tj, "jac-jac"), (tj, tinf, "jac-jac"), (tj, uj, "jac-jac"), (tj, g2, "jac-affine"), (g2, tj, "affine-jac"), (uj, tj2, "jac-jac")];
+        for (a, b, cls) in &tpairs {
+            for f in ["add", "add_full", "sub", "equals"] { g2op(t, sess(), f, a, b, &zero32, cls); }
+        }
+        for a in [g2, tj, tinf] { g2op(t, sess(), "dbl", &a, &a, &zero32, "unary"); g2op(t, sess(), "neg", &a, &a, &zero32, "unary"); }
+        for (j, s) in scalars.iter().enumerate() {
+            if thorough || (i + j) % 3 == 0 { g2op(t, sess(), "mul", if j % 2 == 0 { &g2 } else { &tj }, &g2, s, "scalar"); }
+            if i == 0 && (thorough || j % 2 == 0) { g2op(t, sess(), "gmul", &g2, &g2, s, "scalar"); }
+        }
+    }
+    // Booth recodings (windows 5 and 7): all digits of special and random scalars; every window position receives every digit class over the set
+    let mut ks: Vec<Vec<u8>> = vec![vec![0u8; 32], vec![0xffu8; 32], be_add_small(&vec![0u8; 32], 1), nhex.clone(), { let mut x = vec![0u8; 32]; x[0] = 0x80; x }, vec![0x55u8; 32], vec![0xaau8; 32],
+        { let mut x = vec![0u8; 32]; x[23] = 1; x }, { let mut x = vec![0xffu8; 32]; x[24] = 0x7f; x }];
+    for _ in 0..(if thorough { 200 } else { 30 }) { ks.push(rng.bytes(32)); }
+    for k in &ks {
+        for w in [5u64, 7] {
+            let nwin = (256 + w - 1) / w;
+            let ku = u(k);
+            let o = guard_plain(move || (0..nwin).map(|i| sm9_u256_get_booth(&ku, w, i)).collect::<Vec<i32>>());
+            let digits: Vec<Value> = o.ok().map(|d| d.iter().map(|x| json!([if *x < 0 { 1 } else { 0 }, x.unsigned_abs()])).collect()).unwrap_or_default();
+            t.emit(&sess(), "booth", json!({"prop": "C13", "k": bytes(k), "w": w, "cls": "recode", "digits": digits, "outcome": o.name(), "detail": o.detail()}));
+        }
+    }
+    // fixed-base table: all 37 x 64 entries in one session (exhaustive in both tiers)
+    let (rows, cols) = verif::table_dims();
+    let ts = "sm9ar/table".to_string();
+    for row in 0..rows {
+        for j in 1..=(cols / 2) {
+            t.emit(&ts, "g1.table", json!({"prop": "C13", "row": row, "j": j, "x": bytes(&ub(&verif::table_entry(row, 2 * j - 2))), "y": bytes(&ub(&verif::table_entry(row, 2 * j - 1)))}));
+        }
+    }
+}
+
+// ------------------------------------------------------------------------------------------------ C14 (SM9 part)
+pub fn rng_ops_sm9(t: &mut Tracer, sess: &str, proc_id: u32, count: usize, inject: bool, rng: &mut Rng, real: &mut u64) {
+    let sc = sign_ctx(&scalar(rng));
+    let ec = enc_ctx(&scalar(rng));
+    let skey = sc.msk.extract_key(b"signer").unwrap();
+    let xkey = ec.msk.extract_exch_key(b"bob").unwrap();
+    let ra = Point::g_mul(&[9, 0, 0, 0]);
+    for i in 0..count {
+        let script = if inject { crate::suites::sm2::injection_script(N9_HEX, P9_HEX, rng, i) } else { vec![] };
+        let kind = ["keygen-sign", "keygen-enc", "keygen-enc2", "sign", "encrypt", "kx1a", "kx1b"][i % 7];
+        let (o, _, log): (Outcome<()>, _, _) = match kind {
+            "keygen-sign" => hooked(script, || { let _ = gm_sm9::key::generate_sign_master_key(); Ok(()) }),
+            "keygen-enc" => hooked(script, || { let _ = gm_sm9::key::generate_enc_master_key(); Ok(()) }),
+            "keygen-enc2" => hooked(script, || { let _ = Sm9EncMasterKey::master_key_generate(); Ok(()) }),
+            "sign" => { let m = rng.bytes(10); hooked(script, move || skey.sign(&m).map(|_| ()).map_err(|e| format!("{:?}", e))) }
+            "encrypt" => { let (msk, m) = (ec.msk, rng.bytes(8)); hooked(script, move || { let _ = msk.encrypt(b"bob", &m); Ok(()) }) }
+            "kx1a" => { let msk = ec.msk; hooked(script, move || { let _ = exch_step_1a(&msk, b"bob"); Ok(()) }) }
+            _ => { let msk = ec.msk; hooked(script, move || exch_step_1b(&msk, b"alice", b"bob", &xkey, &ra, 16).map(|_| ()).map_err(|e| format!("{:?}", e))) }
+        };
+        let draws: Vec<Value> = log.iter().map(|e| json!({"c": bytes(&e.candidate), "a": if e.accepted { 1 } else { 0 }})).collect();
+        if !inject && o.name() == "ok" { *real += 1; }
+        t.emit(sess, "rng.op", json!({"prop": "C14", "lib": "sm9", "kind": kind, "proc": proc_id, "scripted": if inject { 1 } else { 0 }, "chk": "none", "draws": draws, "outcome": o.name()}));
+    }
 }
